@@ -7,6 +7,8 @@ is a Boolean; methods, properties, constructors and helper functions are interpr
 
 R1  to_absolute == cutoff + steps, to_relative == absolute - cutoff, both compositions are the identity,
     short-circuit branches return an equal horizon, to_absolute_int == absolute - start.
+    Every integer cutoff is accepted: a trace that raises under a condition on the cutoff alone (e.g. a truthiness test
+    that excludes 0) is a violation (":every-cutoff", also checked on the R2 / R3 runs).
 R2  in-sample mask == [relative <= 0], out-of-sample mask == its complement, to_in_sample / to_out_of_sample
     select the own values by exactly these masks, is_all_* == "mask holds everywhere".
 R3  to_indexer(cutoff[, from_cutoff=True]) == relative - 1 for relative and absolute horizons.
@@ -14,7 +16,8 @@ R4  _check_values per input type: index / list / array inputs pass the duplicate
     a single int is wrapped, every other type raises TypeError; __init__ accepts exactly the
     (index type, is_relative) combinations of the documented tables, stores what it validated, and rejects a
     non-bool ``is_relative``.
-R5  check_fh wraps non-horizon input as a *relative* horizon, returns horizons unchanged, rejects empty
+R5  check_fh hands the caller's values *unchanged* (no cast; value-preserving np.asarray allowed) to the validating
+    constructor as a *relative* horizon, returns horizons unchanged, rejects empty
     horizons and (with enforce_relative) absolute ones.
 """
 import ast
